@@ -105,6 +105,24 @@ def deep_programs():
     return out
 
 
+def empty_block_programs():
+    """every place a block can stand, with a body of only a comment / only `pass` / only a doc-string (comments are filtered
+    out after the indentation tokens were emitted, so such a block is EMPTY for the later stages)"""
+    out = []
+    for body in ("# TODO", "pass", '"""doc"""', "# one\n{I}# two"):
+        for tmpl in ("def f() -> Int =>\n{I}{B}\n", "def f() =>\n{I}{B}\n", "def f(a: Int) -> Int =>\n{I}{B}\nprint(f(1))\n",
+                     "def c := True\ndef x := if c then\n{I}{B}\nelse\n{I}2\n", "def c := True\ndef x := if c then\n{I}1\nelse\n{I}{B}\n",
+                     "def c := True\nif c then\n{I}{B}\nelse\n{I}print(2)\n", "def c := True\nif c then\n{I}{B}\n",
+                     "def x := match 3\n{I}1 =>\n{I}{I}{B}\n{I}_ => 2\n", "match 3\n{I}1 =>\n{I}{I}{B}\n{I}_ => print(2)\n",
+                     "def g(v: Int) -> Int raise [Exception] => v\ndef x := g(1) handle\n{I}err: Exception =>\n{I}{I}{B}\n",
+                     "def g(v: Int) -> Int raise [Exception] => v\ndef f() -> Int =>\n{I}g(1) handle\n{I}{I}err: Exception =>\n{I}{I}{I}{B}\n",
+                     "class K\n{I}{B}\n", "class K\n{I}def m(self) -> Int =>\n{I}{I}{B}\n", "class K\n{I}def m(self) =>\n{I}{I}{B}\n", "class K\n{I}def __init__(self) =>\n{I}{I}{B}\n",
+                     "for i in 0 .. 2 do\n{I}{B}\n", "def c := False\nwhile c do\n{I}{B}\n", "def f() -> Int =>\n{I}if True then\n{I}{I}{B}\n{I}else\n{I}{I}2\n",
+                     "def f() -> Int =>\n{I}match 3\n{I}{I}1 =>\n{I}{I}{I}{B}\n{I}{I}_ => 2\n", "type T\n{I}{B}\n", "with open(\"f\") as w do\n{I}{B}\n"):
+            out.append(tmpl.replace("{B}", body).replace("{I}", "    "))
+    return out
+
+
 def literal_programs():
     """every spelling of a literal the lexer accepts that a fixed-width conversion could choke on (values around 2^31, 2^32,
     2^63, 2^64, very long digit strings, huge and empty exponents, long fractions), in every position where the checker or
@@ -136,6 +154,7 @@ def run(chk):
     cases = [("adversarial", t) for t in ADVERSARIAL] + [("deep", t) for t in deep_programs()]
     cases += [("token-placement", t) for t in token_placement_programs()]
     cases += [("literal", t) for t in literal_programs()]
+    cases += [("empty-block", t) for t in empty_block_programs()]
     cases += [("class-graph", t) for t in class_graph_programs(rng, 1500 if thorough else 300)]
     cases += [("special-name", t) for t in special_name_programs()]
     cases += [("corpus", f["input"]) for f in chk.findings if f.get("input")]
